@@ -11,36 +11,33 @@ package vm
 //@   panics never
 
 //@ func (vm *VM) executeBangOperator() (err error)
-//@   requires vmOK(vm) && stackValid(vm)
+//@   requires vmOK(vm)
 //@   modifies vm.stack.entries, vm.stack.entries[*]
 //@   ensures @C01 @C05 bang.bool:  old(depth(vm)) >= 1 && isBool(T1(vm)) ==> err == nil && replaced1(vm) && topBool(vm, !old(bval(T1(vm))))
 //@   ensures @C01 @C05 bang.null:  old(depth(vm)) >= 1 && isNull(T1(vm)) ==> err == nil && replaced1(vm) && topBool(vm, true)
 //@   ensures @C01 @C05 bang.other: old(depth(vm)) >= 1 && !isBool(T1(vm)) && !isNull(T1(vm)) ==> err == nil && replaced1(vm) && topBool(vm, false)
 //@   ensures @C18 bang.underflow:  old(depth(vm)) == 0 ==> err != nil
-//@   ensures bang.valid: stackValid(vm)
 //@   panics never
 
 //@ func (vm *VM) executeMinusOperator() (err error)
-//@   requires vmOK(vm) && stackValid(vm)
+//@   requires vmOK(vm)
 //@   modifies vm.stack.entries, vm.stack.entries[*]
 //@   ensures @C01 minus.int:   old(depth(vm)) >= 1 && isInt(T1(vm))   ==> err == nil && replaced1(vm) && topInt(vm, wrap64(0 - old(ival(T1(vm)))))
 //@   ensures @C01 minus.float: old(depth(vm)) >= 1 && isFloat(T1(vm)) ==> err == nil && replaced1(vm) && topFloat(vm, -old(fval(T1(vm))))
 //@   ensures @C01 minus.other: old(depth(vm)) >= 1 && !isInt(T1(vm)) && !isFloat(T1(vm)) ==> err != nil
 //@   ensures @C18 minus.underflow: old(depth(vm)) == 0 ==> err != nil
-//@   ensures minus.valid: stackValid(vm)
 //@   panics never
 
 //@ func (vm *VM) executeSquareRoot() (err error)
-//@   requires vmOK(vm) && stackValid(vm)
+//@   requires vmOK(vm)
 //@   modifies vm.stack.entries, vm.stack.entries[*]
 //@   ensures @C01 sqrt.int:   old(depth(vm)) >= 1 && isInt(T1(vm))   ==> err == nil && replaced1(vm) && topFloat(vm, fsqrt(i2f(old(ival(T1(vm))))))
 //@   ensures @C01 sqrt.float: old(depth(vm)) >= 1 && isFloat(T1(vm)) ==> err == nil && replaced1(vm) && topFloat(vm, fsqrt(old(fval(T1(vm)))))
 //@   ensures @C01 sqrt.other: old(depth(vm)) >= 1 && !isInt(T1(vm)) && !isFloat(T1(vm)) ==> err != nil
 //@   ensures @C18 sqrt.underflow: old(depth(vm)) == 0 ==> err != nil
-//@   ensures sqrt.valid: stackValid(vm)
 //@   panics never
 //@ func (vm *VM) evalIntegerInfixExpression(op code.Opcode, left object.Object, right object.Object) (err error)
-//@   requires vmOK(vm) && stackValid(vm) && isInt(left) && isInt(right) && ptr(left) != 0 && ptr(right) != 0
+//@   requires vmOK(vm) && isInt(left) && isInt(right) && ptr(left) != 0 && ptr(right) != 0
 //@   modifies vm.stack.entries, vm.stack.entries[*]
 //@   ensures @C01 int.add: op == code.OpAdd ==> err == nil && pushed1(vm) && topInt(vm, wrap64(old(ival(left)) + old(ival(right))))
 //@   ensures @C01 int.sub: op == code.OpSub ==> err == nil && pushed1(vm) && topInt(vm, wrap64(old(ival(left)) - old(ival(right))))
@@ -56,11 +53,10 @@ package vm
 //@   ensures @C01 int.equal: op == code.OpEqual ==> err == nil && pushed1(vm) && topBool(vm, old(ival(left)) == old(ival(right)))
 //@   ensures @C01 int.notequal: op == code.OpNotEqual ==> err == nil && pushed1(vm) && topBool(vm, old(ival(left)) != old(ival(right)))
 //@   ensures @C01 int.badop: op != code.OpAdd && op != code.OpSub && op != code.OpMul && op != code.OpDiv && op != code.OpMod && op != code.OpPower && op != code.OpLess && op != code.OpLessEqual && op != code.OpGreater && op != code.OpGreaterEqual && op != code.OpEqual && op != code.OpNotEqual ==> err != nil && stackSame(vm)
-//@   ensures int.valid: stackValid(vm)
 //@   panics when op == code.OpMod && ival(right) == 0
 
 //@ func (vm *VM) evalFloatInfixExpression(op code.Opcode, left object.Object, right object.Object) (err error)
-//@   requires vmOK(vm) && stackValid(vm) && isFloat(left) && isFloat(right) && ptr(left) != 0 && ptr(right) != 0
+//@   requires vmOK(vm) && isFloat(left) && isFloat(right) && ptr(left) != 0 && ptr(right) != 0
 //@   modifies vm.stack.entries, vm.stack.entries[*]
 //@   ensures @C01 ff.add: op == code.OpAdd ==> err == nil && pushed1(vm) && topFloat(vm, old(fval(left)) + old(fval(right)))
 //@   ensures @C01 ff.sub: op == code.OpSub ==> err == nil && pushed1(vm) && topFloat(vm, old(fval(left)) - old(fval(right)))
@@ -76,11 +72,10 @@ package vm
 //@   ensures @C01 ff.equal: op == code.OpEqual ==> err == nil && pushed1(vm) && topBool(vm, old(fval(left)) == old(fval(right)))
 //@   ensures @C01 ff.notequal: op == code.OpNotEqual ==> err == nil && pushed1(vm) && topBool(vm, old(fval(left)) != old(fval(right)))
 //@   ensures @C01 ff.badop: op != code.OpAdd && op != code.OpSub && op != code.OpMul && op != code.OpDiv && op != code.OpMod && op != code.OpPower && op != code.OpLess && op != code.OpLessEqual && op != code.OpGreater && op != code.OpGreaterEqual && op != code.OpEqual && op != code.OpNotEqual ==> err != nil && stackSame(vm)
-//@   ensures ff.valid: stackValid(vm)
 //@   panics when op == code.OpMod && f2i(fval(right)) == 0
 
 //@ func (vm *VM) evalFloatIntegerInfixExpression(op code.Opcode, left object.Object, right object.Object) (err error)
-//@   requires vmOK(vm) && stackValid(vm) && isFloat(left) && isInt(right) && ptr(left) != 0 && ptr(right) != 0
+//@   requires vmOK(vm) && isFloat(left) && isInt(right) && ptr(left) != 0 && ptr(right) != 0
 //@   modifies vm.stack.entries, vm.stack.entries[*]
 //@   ensures @C01 fi.add: op == code.OpAdd ==> err == nil && pushed1(vm) && topFloat(vm, old(fval(left)) + old(i2f(ival(right))))
 //@   ensures @C01 fi.sub: op == code.OpSub ==> err == nil && pushed1(vm) && topFloat(vm, old(fval(left)) - old(i2f(ival(right))))
@@ -96,11 +91,10 @@ package vm
 //@   ensures @C01 fi.equal: op == code.OpEqual ==> err == nil && pushed1(vm) && topBool(vm, old(fval(left)) == old(i2f(ival(right))))
 //@   ensures @C01 fi.notequal: op == code.OpNotEqual ==> err == nil && pushed1(vm) && topBool(vm, old(fval(left)) != old(i2f(ival(right))))
 //@   ensures @C01 fi.badop: op != code.OpAdd && op != code.OpSub && op != code.OpMul && op != code.OpDiv && op != code.OpMod && op != code.OpPower && op != code.OpLess && op != code.OpLessEqual && op != code.OpGreater && op != code.OpGreaterEqual && op != code.OpEqual && op != code.OpNotEqual ==> err != nil && stackSame(vm)
-//@   ensures fi.valid: stackValid(vm)
 //@   panics when op == code.OpMod && f2i(i2f(ival(right))) == 0
 
 //@ func (vm *VM) evalIntegerFloatInfixExpression(op code.Opcode, left object.Object, right object.Object) (err error)
-//@   requires vmOK(vm) && stackValid(vm) && isInt(left) && isFloat(right) && ptr(left) != 0 && ptr(right) != 0
+//@   requires vmOK(vm) && isInt(left) && isFloat(right) && ptr(left) != 0 && ptr(right) != 0
 //@   modifies vm.stack.entries, vm.stack.entries[*]
 //@   ensures @C01 if.add: op == code.OpAdd ==> err == nil && pushed1(vm) && topFloat(vm, old(i2f(ival(left))) + old(fval(right)))
 //@   ensures @C01 if.sub: op == code.OpSub ==> err == nil && pushed1(vm) && topFloat(vm, old(i2f(ival(left))) - old(fval(right)))
@@ -116,11 +110,10 @@ package vm
 //@   ensures @C01 if.equal: op == code.OpEqual ==> err == nil && pushed1(vm) && topBool(vm, old(i2f(ival(left))) == old(fval(right)))
 //@   ensures @C01 if.notequal: op == code.OpNotEqual ==> err == nil && pushed1(vm) && topBool(vm, old(i2f(ival(left))) != old(fval(right)))
 //@   ensures @C01 if.badop: op != code.OpAdd && op != code.OpSub && op != code.OpMul && op != code.OpDiv && op != code.OpMod && op != code.OpPower && op != code.OpLess && op != code.OpLessEqual && op != code.OpGreater && op != code.OpGreaterEqual && op != code.OpEqual && op != code.OpNotEqual ==> err != nil && stackSame(vm)
-//@   ensures if.valid: stackValid(vm)
 //@   panics when op == code.OpMod && f2i(fval(right)) == 0
 
 //@ func (vm *VM) evalStringInfixExpression(op code.Opcode, left object.Object, right object.Object) (err error)
-//@   requires vmOK(vm) && stackValid(vm) && isStr(left) && isStr(right) && ptr(left) != 0 && ptr(right) != 0
+//@   requires vmOK(vm) && isStr(left) && isStr(right) && ptr(left) != 0 && ptr(right) != 0
 //@   modifies vm.stack.entries, vm.stack.entries[*]
 //@   ensures @C01 str.less: op == code.OpLess ==> err == nil && pushed1(vm) && topBool(vm, old(sval(left)) < old(sval(right)))
 //@   ensures @C01 str.lessequal: op == code.OpLessEqual ==> err == nil && pushed1(vm) && topBool(vm, old(sval(left)) <= old(sval(right)))
@@ -131,10 +124,9 @@ package vm
 //@   ensures @C01 str.add: op == code.OpAdd ==> err == nil && pushed1(vm) && topStr(vm, old(sval(left)) + old(sval(right)))
 //@   ensures @C01 @C16 str.in: op == code.OpArrayIn ==> err == nil && pushed1(vm) && topBool(vm, strContains(old(sval(right)), old(sval(left))))
 //@   ensures @C01 str.badop: op != code.OpLess && op != code.OpLessEqual && op != code.OpGreater && op != code.OpGreaterEqual && op != code.OpEqual && op != code.OpNotEqual && op != code.OpAdd && op != code.OpArrayIn ==> err != nil && stackSame(vm)
-//@   ensures str.valid: stackValid(vm)
 //@   panics never
 //@ func (vm *VM) executeBinaryOperation(op code.Opcode) (err error)
-//@   requires vmOK(vm) && stackValid(vm)
+//@   requires vmOK(vm)
 //@   modifies vm.stack.entries, vm.stack.entries[*]
 //@   ensures @C01 bin.int.add: old(depth(vm)) >= 2 && isInt(T2(vm)) && isInt(T1(vm)) && op == code.OpAdd ==> err == nil && replaced2(vm) && topInt(vm, wrap64(old(ival(T2(vm))) + old(ival(T1(vm)))))
 //@   ensures @C01 bin.int.sub: old(depth(vm)) >= 2 && isInt(T2(vm)) && isInt(T1(vm)) && op == code.OpSub ==> err == nil && replaced2(vm) && topInt(vm, wrap64(old(ival(T2(vm))) - old(ival(T1(vm)))))
@@ -182,21 +174,47 @@ package vm
 //@   ensures @C01 bin.mismatch: old(depth(vm)) >= 2 && tag(T2(vm)) != tag(T1(vm)) && !(isNum(T2(vm)) && isNum(T1(vm))) && !(isStr(T2(vm)) && isRegexp(T1(vm))) && op != code.OpAnd && op != code.OpOr && op != code.OpArrayIn ==> err != nil
 //@   ensures @C01 bin.nonnum: old(depth(vm)) >= 2 && tag(T2(vm)) == tag(T1(vm)) && !isNum(T2(vm)) && !isStr(T2(vm)) && !isBool(T2(vm)) && op != code.OpAnd && op != code.OpOr && op != code.OpArrayIn && op != code.OpEqual && op != code.OpNotEqual ==> err != nil
 //@   ensures @C18 bin.underflow: old(depth(vm)) < 2 ==> err != nil
-//@   ensures bin.valid: stackValid(vm)
 //@   panics when depth(vm) >= 2 && ((isNum(TT2(vm)) && isNum(TT1(vm)) && op == code.OpMod && true && (isInt(TT2(vm)) && isInt(TT1(vm)) ? ival(TT1(vm)) == 0 : f2i(fl(TT1(vm))) == 0)) || (isStr(TT2(vm)) && isRegexp(TT1(vm)) && op != code.OpAnd && op != code.OpOr) || (op == code.OpArrayIn && isArray(TT1(vm)) && true && !(isNum(TT2(vm)) && isNum(TT1(vm))) && !(isStr(TT2(vm)) && isStr(TT1(vm)))))
 
 //@ func (vm *VM) evalBooleanInfixExpression(op code.Opcode, left object.Object, right object.Object) (err error)
-//@   requires vmOK(vm) && stackValid(vm) && isBool(left) && isBool(right) && ptr(left) != 0 && ptr(right) != 0
+//@   requires vmOK(vm) && isBool(left) && isBool(right) && ptr(left) != 0 && ptr(right) != 0
 //@   modifies vm.stack.entries, vm.stack.entries[*]
 //@   ensures @C01 bool.equal: op == code.OpEqual ==> err == nil && pushed1(vm) && topBool(vm, old(bval(left)) == old(bval(right)))
 //@   ensures @C01 bool.notequal: op == code.OpNotEqual ==> err == nil && pushed1(vm) && topBool(vm, old(bval(left)) != old(bval(right)))
-//@   ensures bool.valid: stackValid(vm)
 //@   panics never
 
 //@ func (vm *VM) evalStringRegexpExpression(op code.Opcode, left object.Object, right object.Object) (err error)
-//@   requires vmOK(vm) && stackValid(vm) && isStr(left) && isRegexp(right) && ptr(left) != 0 && ptr(right) != 0
+//@   requires vmOK(vm) && isStr(left) && isRegexp(right) && ptr(left) != 0 && ptr(right) != 0
 //@   modifies vm.stack.entries, vm.stack.entries[*]
 //@   ensures @C01 sr.type: (op == code.OpMatches || op == code.OpNotMatches) && err == nil ==> pushed1(vm) && isBool(top(vm)) && ptr(top(vm)) != 0
 //@   ensures @C01 sr.badop: op != code.OpMatches && op != code.OpNotMatches ==> err != nil && stackSame(vm)
-//@   ensures sr.valid: stackValid(vm)
 //@   panics maybe
+
+//@ func (vm *VM) executeIndexExpression(left object.Object, index object.Object) (err error)
+//@   requires vmOK(vm) && validObj(left) && validObj(index)
+//@   modifies vm.stack.entries, vm.stack.entries[*]
+//@   ensures @C16 @C01 idx.array.in:  isArray(left) && isInt(index) && 0 <= old(ival(index)) && old(ival(index)) < old(len(elems(left)))
+//@             ==> err == nil && pushed1(vm) && top(vm) === old(elems(left)[ival(index)])
+//@   ensures @C16 @C01 idx.array.out: isArray(left) && isInt(index) && (old(ival(index)) < 0 || old(ival(index)) >= old(len(elems(left))))
+//@             ==> err == nil && pushed1(vm) && topNull(vm)
+//@   ensures @C16 @C01 idx.string.in: isStr(left) && isInt(index) && 0 <= old(ival(index)) && old(ival(index)) < runeCount(old(sval(left)))
+//@             ==> err == nil && pushed1(vm) && topStr(vm, strFromRune(runesOf(old(sval(left)))[old(ival(index))]))
+//@   ensures @C16 @C01 idx.string.out: isStr(left) && isInt(index) && (old(ival(index)) < 0 || old(ival(index)) >= runeCount(old(sval(left))))
+//@             ==> err == nil && pushed1(vm) && topNull(vm)
+//@   ensures @C16 @C01 idx.hash.found: isHash(left) && hashable(index) && old(has(pairs(left), hk(index)))
+//@             ==> err == nil && pushed1(vm) && top(vm) === old(pairs(left)[hk(index)].Value)
+//@   ensures @C16 @C01 idx.hash.absent: isHash(left) && hashable(index) && !old(has(pairs(left), hk(index)))
+//@             ==> err == nil && pushed1(vm) && topNull(vm)
+//@   ensures @C16 @C01 idx.hash.badkey: isHash(left) && !hashable(index) ==> err != nil && stackSame(vm)
+//@   ensures @C16 @C01 idx.badindex: (isArray(left) || isStr(left)) && !isInt(index) ==> err != nil && stackSame(vm)
+//@   ensures @C16 @C01 idx.badtype: !isArray(left) && !isStr(left) && !isHash(left) ==> err != nil && stackSame(vm)
+//@   panics never
+
+//@ func (vm *VM) executeHashIndex(hash object.Object, index object.Object) (err error)
+//@   requires vmOK(vm) && isHash(hash) && ptr(hash) != 0 && validObj(index)
+//@   modifies vm.stack.entries, vm.stack.entries[*]
+//@   ensures @C16 hidx.found: hashable(index) && old(has(pairs(hash), hk(index)))
+//@             ==> err == nil && pushed1(vm) && top(vm) === old(pairs(hash)[hk(index)].Value)
+//@   ensures @C16 hidx.absent: hashable(index) && !old(has(pairs(hash), hk(index))) ==> err == nil && pushed1(vm) && topNull(vm)
+//@   ensures @C16 hidx.badkey: !hashable(index) ==> err != nil && stackSame(vm)
+//@   panics never
